@@ -3,6 +3,9 @@
 // announces delivered to its transport handler entry point, and by provider registrations.
 #include "worlds/common.hpp"
 
+#include <errno.h>
+#include <sys/stat.h>
+
 using namespace wl;
 
 namespace {
@@ -21,6 +24,7 @@ Plan gen_c05(sk::Rng& r, Tier) {
     p.knobs["min_ttl"] = mn; p.knobs["max_ttl"] = mx; p.knobs["def_ttl"] = r.range(mn, mx);
     p.knobs["cleanup"] = r.pick<std::int64_t>({1, 2, 5, 30, 120});
     p.knobs["threshold"] = r.range(1, 3); p.knobs["total"] = r.range(3, 5);
+    p.knobs["persistent"] = r.chance(1, 4);   // chunks are also kept as files that are wiped on expiry; disk faults can hit the cleanup
     const int n = static_cast<int>(r.range(5, 40));
     auto ttl = [&] { return r.chance(1, 4) ? r.pick<std::int64_t>({0, mn, mx, mx + 50}) : r.range(mn, std::min(mx, mn + 90)); };
     for (int i = 0; i < n; ++i) {
@@ -36,7 +40,8 @@ Plan gen_c05(sk::Rng& r, Tier) {
         else if (c < 62) { op.k = "lookup"; op.a = {static_cast<std::int64_t>(r.below(3)), static_cast<std::int64_t>(r.below(3))}; }   // get_record / fetch_chunk / export of a local chunk
         else if (c < 74) { op.k = "adv"; op.a = {r.pick<std::int64_t>({10, 999, 1000, 1001, 5000, 30000, 120000, 4000000})}; }
         else if (c < 84) { op.k = "adv_to"; op.a = {static_cast<std::int64_t>(r.below(3)), r.pick<std::int64_t>({-1, 0, 1, 500})}; }
-        else { op.k = "tick"; }
+        else if (c < 97 || !p.knobs["persistent"]) { op.k = "tick"; }
+        else { op.k = "disk_fault"; op.a = {static_cast<std::int64_t>(r.below(4)), static_cast<std::int64_t>(r.below(2))}; }   // the k-th file call from now on fails (EIO / ENOSPC)
         p.ops.push_back(op);
     }
     return p;
@@ -48,9 +53,14 @@ void exec_c05(const Plan& p, Ctx& ctx) {
     en::Config c = base_config(21);
     c.min_manifest_ttl = seconds(p.knob("min_ttl")); c.max_manifest_ttl = seconds(p.knob("max_ttl")); c.default_chunk_ttl = seconds(p.knob("def_ttl"));
     c.cleanup_interval = seconds(p.knob("cleanup"));
+    if (p.knob("persistent", 0)) {
+        c.storage_persistent_enabled = true; c.storage_wipe_on_expiry = true; c.storage_wipe_passes = 1;
+        c.storage_directory = sk::scratch_dir() + "/c05-store";
+        ::mkdir(c.storage_directory.c_str(), 0700);
+    }
     c.shard_threshold = static_cast<std::uint8_t>(p.knob("threshold")); c.shard_total = static_cast<std::uint8_t>(p.knob("total"));
     c.announce_min_interval = seconds(1); c.announce_burst_limit = 1000;
-    en::Config cp = c; cp.identity_seed = 22; cp.cleanup_interval = seconds(100000);
+    en::Config cp = c; cp.identity_seed = 22; cp.cleanup_interval = seconds(100000); cp.storage_persistent_enabled = false;
     auto node = std::make_unique<en::Node>(kSelf, c);
     auto pub = std::make_unique<en::Node>(kPub, cp);
     const std::int64_t mn = node->config().min_manifest_ttl.count(), mx = node->config().max_manifest_ttl.count(), df = node->config().default_chunk_ttl.count();
@@ -162,6 +172,10 @@ void exec_c05(const Plan& p, Ctx& ctx) {
                 case 1: node->fetch_chunk(local_id(i)); break;
                 default: node->export_chunk_record(local_id(i)); break;
             }
+        } else if (op.k == "disk_fault") {
+            // an I/O error during the cleanup's wipe must not keep the expired chunk (or its notification) back
+            sk::fs_fault_at(0, static_cast<int>(op.at(0)), op.at(1) ? ENOSPC : EIO);
+            ctx.fault("disk_fault_armed");
         } else if (op.k == "adv") {
             sk::sleep_ns(op.at(0) * kMs);
         } else if (op.k == "adv_to") {
@@ -206,7 +220,7 @@ Scenario make_c05() {
     s.real_components = {"Node (tick, store_chunk, ingest_manifest, receive_chunk, handle_announce, audit_ttl)", "ChunkStore", "KademliaTable", "SwarmCoordinator", "Manifest codec"};
     s.stub_components = {"OS clock -> simulated", "entropy -> seeded", "announces delivered through the node's handler entry point, not over a socket"};
     s.assumptions = {"each local chunk id is stored once per run so that 'reported exactly once' is unambiguous"};
-    s.rule = "plan = config + 5..40 ops (store, publisher manifest ingest, announce, provider registration, replica receipt, the node re-announcing a held chunk with an unrelated TTL, lookups incl. between deadline and tick, advances incl. exactly to deadlines, ticks); non-trivial = a lookup hit a chunk between its deadline and the next cleanup, or the node re-announced a held chunk; distinct = plan hash";
+    s.rule = "plan = config + 5..40 ops (store, publisher manifest ingest, announce, provider registration, replica receipt, (in a quarter of the runs) persistent storage with wipe-on-expiry and injected disk errors, the node re-announcing a held chunk with an unrelated TTL, lookups incl. between deadline and tick, advances incl. exactly to deadlines, ticks); non-trivial = a lookup hit a chunk between its deadline and the next cleanup, or the node re-announced a held chunk; distinct = plan hash";
     s.gen = gen_c05; s.exec = exec_c05;
     s.kernel_knobs = [](const Plan&) { sk::Knobs k; k.preempt_per_1024 = 0; return k; };
     s.quick_runs = 30000; s.thorough_runs = 1500000; s.quick_secs = 40; s.thorough_secs = 600;
